@@ -11,3 +11,9 @@ def fill(claim, NA):
         "Trusted: CrossHair+z3, the regex-matcher repair (vlib/chre.py, self-tested against CPython re), AST->LIA translator (validated on concrete inputs every run). One stamp symbolic per contract; bs4/lxml tree building and float(str) parsing are contracts. Bounds: digit counts listed per obligation; MicroDVD frames <= 9e7; TTML counts < 1e6 (1e9 thorough).",
         "CrossHair symbolic execution + z3; AST->QF_LIA exact binary64 encoding (z3)",
     )
+    claim(
+        "C03",
+        "Bounded symbolic check of every writer's text path: any line of up to 3 arbitrary printable code points (and '&'+3) is encoded by the real code and must decode back, under an independent reference decoder of the target format, to the same text with no cue terminator or stray markup; all node sequences of 5 (thorough 7) TEXT/EMPTY/BREAK nodes must come out as exactly one cue with the expected lines under the reference block parser.",
+        "Trusted: CrossHair+z3 string model; reference decoders/parsers in harness/ref_text.py, harness/C03_struct.py; bs4's verbatim emission of p.string (contract). Bounds: |line| <= 3 (+'&' prefix 4), <= 7 nodes, one text node per line.",
+        "CrossHair symbolic execution + z3 over symbolic strings and node-kind selectors",
+    )
